@@ -78,9 +78,9 @@ impl Check for C04 {
     }
     fn gens(&self) -> Vec<GenSpec> {
         vec![
-            GenSpec { name: "tree", quick: 1500, thorough: 60_000 },
-            GenSpec { name: "fd", quick: 1500, thorough: 60_000 },
-            GenSpec { name: "mixed", quick: 1500, thorough: 60_000 },
+            GenSpec { name: "tree", quick: 1500, thorough: 20_000 },
+            GenSpec { name: "fd", quick: 1500, thorough: 15_000 },
+            GenSpec { name: "mixed", quick: 1500, thorough: 15_000 },
             GenSpec { name: "fixed", quick: FIXED.len() as u64, thorough: FIXED.len() as u64 },
         ]
     }
@@ -93,7 +93,7 @@ impl Check for C04 {
     fn floor(&self, tier: Tier) -> u64 {
         match tier {
             Tier::Quick => 1000,
-            Tier::Thorough => 40_000,
+            Tier::Thorough => 12_000,
         }
     }
     fn required_counters(&self) -> Vec<&'static str> {
